@@ -20,6 +20,7 @@ import (
 	"verif/checks/c14"
 	"verif/checks/c15"
 	"verif/checks/c16"
+	"verif/checks/c18"
 	"verif/engine/core"
 	"verif/gen/keys"
 )
@@ -45,6 +46,7 @@ var checks = map[string]check{
 	"C14": {"exploration", c14.Run},
 	"C15": {"fault_enumeration", c15.Run},
 	"C16": {"exploration", c16.Run},
+	"C18": {"exploration", c18.Run},
 }
 
 func main() {
